@@ -229,6 +229,19 @@ def pair_assoc(filter_name, X, f, g):
     return 0.0 if v != v else abs(v)
 
 
+def simulate_pass(X, feats, rk, filter_name, n_best, tc):
+    """Reference greedy selection of one per-measure pass (None when near-ties make it tie-break dependent)."""
+    d = [f for f in feats if rk[f] == rk[f]]
+    vals = sorted(rk[f] for f in d)
+    if any(abs(a - b) <= TOL * max(1.0, abs(a)) for a, b in zip(vals[:-1], vals[1:])):
+        return None
+    kept = []
+    for f in sorted(d, key=lambda f: -rk[f]):
+        if all(pair_assoc(filter_name, X, f, g) <= tc for g in kept):
+            kept.append(f)
+    return kept[:n_best]
+
+
 def validate_block(X, y, feats, got, measure_name, filter_name, n_best, tc, selector_kind, counters, strength=None, th_nan=0.999, th_mode=0.999):
     """Clauses 1-6 for one feature type. strength: association strength used for ordering (defaults to the measure)."""
     probs = []
@@ -266,11 +279,18 @@ def validate_block(X, y, feats, got, measure_name, filter_name, n_best, tc, sele
             v = pair_assoc(filter_name, X, a, b)
             if v > tc + 1e-12:
                 counters["correlated_pairs_seen"] += 1
-                # with several measures: do two measures rank the pair in opposite orders (each one is the best of the pair under one measure)?
-                signs = {(ranks[m][a] > ranks[m][b]) - (ranks[m][a] < ranks[m][b]) for m in mnames}
-                flip = (1 in signs and -1 in signs)
-                probs.append(("correlated_pair_returned" + (":__flip__" if flip else ""), f"{a} and {b} are both returned although their association {v:.6g} > thresh_corr={tc}"
-                              + (" (the requested measures rank the two in opposite orders)" if flip else "")))
+                # with several measures the selector returns the union of the per-measure selections (each pass filtered on its own):
+                # the pair is a defect of a *pass* only if one single pass selects both features
+                union_effect = False
+                if len(mnames) > 1:
+                    same_pass = False
+                    for m in mnames:
+                        sel_m = simulate_pass(X, feats, ranks[m], filter_name, n_best, tc)
+                        if sel_m is not None and a in sel_m and b in sel_m:
+                            same_pass = True
+                    union_effect = not same_pass
+                probs.append(("correlated_pair_returned" + (":__union__" if union_effect else ""), f"{a} and {b} are both returned although their association {v:.6g} > thresh_corr={tc}"
+                              + (" (no single per-measure pass selects both: union of the passes)" if union_effect else "")))
     for f in feats:
         if f in got or meas[f] != meas[f]:
             continue
@@ -404,7 +424,7 @@ def run_case(tier, seed, i):
 
 def classify(v, selector_kind, names, X, got):
     """Known-finding mechanisms (decided from the violating case itself)."""
-    if v.get("kind") == "correlated_pair_returned" and v.get("feature") == "__flip__" and "+" in str(v.get("measure")):
+    if v.get("kind") == "correlated_pair_returned" and v.get("feature") == "__union__" and "+" in str(v.get("measure")):
         return "F27"
     if selector_kind == "regression" and v.get("dtype") == "float" and v.get("measure") == "distance_measure" and \
             v.get("kind") in ("order", "left_out_without_reason", "undefined_returned", "measure_differs_from_recomputation"):
